@@ -12,6 +12,8 @@ import (
 	"bufio"
 	"encoding/hex"
 	"fmt"
+	"hash/fnv"
+	"os"
 	"sort"
 	"strings"
 	"sync"
@@ -20,6 +22,31 @@ import (
 
 	"github.com/klev-dev/klevdb"
 )
+
+// long values are written as a digest (length + FNV-1a 64): the free-running histories are judged by equality
+// of whole messages, and records of several KB would make the traces hundreds of MB
+func frVal(v []byte) string {
+	if len(v) <= 256 {
+		return hex.EncodeToString(v)
+	}
+	h := fnv.New64a()
+	h.Write(v)
+	return fmt.Sprintf("~%d~%016x", len(v), h.Sum64())
+}
+
+func frMsg(m klevdb.Message) string {
+	return fmt.Sprintf("%d@%d:%s:%s", m.Offset, m.Time.UnixMicro(), hex.EncodeToString(m.Key), frVal(m.Value))
+}
+
+func frMsgs(ms []klevdb.Message) string {
+	var sb strings.Builder
+	fmt.Fprintf(&sb, "%d", len(ms))
+	for _, m := range ms {
+		sb.WriteByte(' ')
+		sb.WriteString(frMsg(m))
+	}
+	return sb.String()
+}
 
 type frCall struct {
 	g        int
@@ -117,7 +144,7 @@ func genFree(w *bufio.Writer, root string, seed uint64, n, ops int) {
 						var sb strings.Builder
 						fmt.Fprintf(&sb, "pub %d", nm)
 						for _, m := range msgs {
-							fmt.Fprintf(&sb, " %d:%d:%s:%s", m.Time.UnixMicro(), m.Time.UnixMicro(), hex.EncodeToString(m.Key), hex.EncodeToString(m.Value))
+							fmt.Fprintf(&sb, " %d:%d:%s:%s", m.Time.UnixMicro(), m.Time.UnixMicro(), hex.EncodeToString(m.Key), frVal(m.Value))
 						}
 						return sb.String()
 					}, func() string {
@@ -160,7 +187,7 @@ func genFree(w *bufio.Writer, root string, seed uint64, n, ops int) {
 						if cerr != nil {
 							return errRes(cerr)
 						}
-						return fmt.Sprintf("ok %d %s", nxt, fmtMsgs(ms))
+						return fmt.Sprintf("ok %d %s", nxt, frMsgs(ms))
 					})
 					if cerr == nil {
 						off = nxt
@@ -182,7 +209,7 @@ func genFree(w *bufio.Writer, root string, seed uint64, n, ops int) {
 							if err != nil {
 								return errRes(err)
 							}
-							return "ok " + fmtMsg(m)
+							return "ok " + frMsg(m)
 						})
 					case 2:
 						key := []byte(fmt.Sprintf("k%d", r.intn(6)))
@@ -191,7 +218,7 @@ func genFree(w *bufio.Writer, root string, seed uint64, n, ops int) {
 							if err != nil {
 								return errRes(err)
 							}
-							return "ok " + fmtMsg(m)
+							return "ok " + frMsg(m)
 						})
 					default:
 						tt := 1_000_000 + int64(r.intn(int(tclock.Load()-1_000_000)+1))
@@ -200,7 +227,7 @@ func genFree(w *bufio.Writer, root string, seed uint64, n, ops int) {
 							if err != nil {
 								return errRes(err)
 							}
-							return "ok " + fmtMsg(m)
+							return "ok " + frMsg(m)
 						})
 					}
 				}
@@ -252,7 +279,7 @@ func genFree(w *bufio.Writer, root string, seed uint64, n, ops int) {
 						if err != nil {
 							return errRes(err)
 						}
-						return fmt.Sprintf("ok %d %s", sz, fmtMsgs(sortedMsgs(ms)))
+						return fmt.Sprintf("ok %d %s", sz, frMsgs(sortedMsgs(ms)))
 					})
 				}
 			})
@@ -327,7 +354,7 @@ func genFree(w *bufio.Writer, root string, seed uint64, n, ops int) {
 		}
 		nx, _ := l.NextOffset()
 		if final == "" {
-			final = fmt.Sprintf("ok %d %s", nx, fmtMsgs(all))
+			final = fmt.Sprintf("ok %d %s", nx, frMsgs(all))
 		}
 		fmt.Fprintf(w, "fr.end => %s\n", final)
 		cerr := l.Close()
@@ -339,5 +366,6 @@ func genFree(w *bufio.Writer, root string, seed uint64, n, ops int) {
 			chk = "check-" + classify(err)
 		}
 		fmt.Fprintf(w, "fr.check => %s\n", chk)
+		_ = os.RemoveAll(dir)
 	}
 }
